@@ -323,7 +323,12 @@ def containers():
     out += [('bin_list', lambda: ['0b0101', '0b0011']), ('hex_list', lambda: ['0x1F', '0x03']), ('dec_list', lambda: ['1.25', '-2.0']),
             ('bin_nested', lambda: [['0b0101', '0b0011'], ['0b1110', '0b0001']]), ('bin_tuple', lambda: ('0b0101', '0b0011')),
             ('mixed_list', lambda: ['0b0101', 3, 2.5]), ('bin_list_of_tuples', lambda: [('0b0101', '0b0011'), ('0b0001', '0b0010')]),
-            ('bin_ndarray', lambda: np.array(['0b0101', '0b0011']))]
+            ('bin_ndarray', lambda: np.array(['0b0101', '0b0011'])),
+            # numbers and strings mixed in every position (a shortcut that looks only at the first element must not skip the copy)
+            ('mixed_num_first', lambda: [3, '0b0101', '0x0F']), ('mixed_str_last', lambda: [1.5, 2, '0b0011']),
+            ('mixed_str_middle', lambda: [1, '0x03', 2]), ('mixed_nested', lambda: [[1, '0b01'], ['0x2', 3]]),
+            ('mixed_tuple_num_first', lambda: (3, '0b0101', '0x0F')), ('mixed_nested_num_rows_first', lambda: [[1, 2], ['0b01', '0x2']]),
+            ('hex_list_long', lambda: ['0x1', '0x2', '0x3', '0x4', '0x5', '0x6', '0x7', '0x8']), ('bin_single', lambda: ['0b0101'])]
     return out
 
 
@@ -348,7 +353,7 @@ def container_case(acc, cname, make, route):
         return
     if route in ('ctor_raw', 'set_val_raw') and not (is_int_nd or cname.startswith(('bin', 'hex'))):
         return
-    shape = np.shape(np.array(c)) if not is_str else np.shape(np.array(c, dtype=object) if cname == 'mixed_list' else np.array(c))
+    shape = np.shape(np.array(c)) if not is_str else np.shape(np.array(c, dtype=object) if cname.startswith('mixed') else np.array(c))
     acc.evaluations += 1
     acc.transitions += 1
     acc.dim('container', cname)
